@@ -64,6 +64,14 @@ func runGetDagCase(carBin string, raw []byte, dir string) (string, string, bool)
 		}
 		out := filepath.Join(dir, fmt.Sprintf("got%d.car", ver))
 		os.Remove(out)
+		hv := fnv.New32a()
+		hv.Write(raw)
+		if hv.Sum32()%2 == 0 && !miss["n1"] {
+			// the output path already holds an earlier, larger result for the same root: it must be replaced, not added to
+			pre := exec.Command(carBin, "get-dag", "--version", fmt.Sprint(ver), in, out)
+			pre.Dir = dir
+			pre.Run()
+		}
 		args := []string{"get-dag", "--version", fmt.Sprint(ver)}
 		if o.Opt.Strict {
 			args = append(args, "--strict")
